@@ -458,11 +458,6 @@ fn run_batch(ctx: &Ctx, scripts: &[Script], tag: &str, rep: &mut Report) {
                     break;
                 }
             };
-            if sh.auto && !sh.quit {
-                for _ in 0..10 {
-                    sh.m.trigger_key_clock();
-                }
-            }
             let key_class = match k {
                 Key::Char(c) if c.is_ascii() => 0u64,
                 Key::Char(_) => 1,
@@ -490,6 +485,14 @@ fn run_batch(ctx: &Ctx, scripts: &[Script], tag: &str, rep: &mut Report) {
                 }
                 j => j,
             };
+            // auto-run: the session clocks the machine 10 times per frame, after the key was handled
+            if sh.auto && !sh.quit {
+                verif::set_fuel(Some(2_000_000));
+                for _ in 0..10 {
+                    sh.m.trigger_key_clock();
+                }
+                verif::set_fuel(None);
+            }
             match judge {
                 Judge::Either(_) => {}
                 Judge::Stop => {
